@@ -255,6 +255,11 @@ Definition fault_okb (e : exn) : bool :=
   end.
 Definition plan_transientb (pl : fplan) : bool :=
   forallb (fun x => match x with Some (_, e) => fault_okb e | None => true end) pl.
+(* "transient errors within the retry budget", nothing else: the hypothesis of the property's sentence *)
+Definition op_plan_budgetb (budget : nat) (pl : fplan) : bool := plan_transientb pl && (Nat.leb (nfaults_f pl) budget).
+Fixpoint plans_budgetb (budget : nat) (plans : list fplan) : bool :=
+  match plans with [] => true | pl :: plans' => op_plan_budgetb budget pl && plans_budgetb budget plans' end.
+(* ... and, in addition, no fault on any request of a CAS write *)
 Definition op_plan_withinb (budget : nat) (o : op key) (pl : fplan) : bool :=
   plan_transientb pl && (Nat.leb (nfaults_f pl) budget) && (match o with WriteCas _ _ => Nat.eqb (nfaults_f pl) 0 | _ => true end).
 Definition op_plan_okb (budget : nat) (o : op key) (pl : fplan) : bool :=
